@@ -191,18 +191,8 @@ def run(tier='quick'):
         if not fs:
             raise AnalysisBroken('%s not found' % qn)
         f = fs[0]
-        out = []
-        for s in eff.sites(f):
-            st = s.stored_in
-            if st is not None and st.kind == 'attach':
-                sp = c16._sym_path(prog, f, s.binds[0]) if s.binds else ('literal',)
-                out.append(('attach', (st.name or '').strip("'\"").lower(), c16._show_path(sp), s.loc))
-        for g, n, arg in c16._open_sites(prog, cg, {f.key: (f, None, None)}):
-            sp = c16._sym_path(prog, g, arg)
-            if sp != (':memory:',):
-                out.append(('open', 'main', c16._show_path(sp), n.get('loc')))
-        out.sort(key=lambda x: (x[3][1] if x[3] else 0))
-        return f, [(a, b, c) for a, b, c, _ in out]
+        # in execution order, through repository helpers (arguments substituted for parameters)
+        return f, [(a, b, c16._show_path(sp)) for a, b, sp in c16.open_sequence(prog, cg, eff, f)]
     pairs = [(NS + 'create_legacy_sqlite_database', NS + 'load_legacy_sqlite_database'),
              (NS + 'create_database2_sqlite_database', NS + 'load_database2_sqlite_database')]
     for cq, lq in pairs:
@@ -351,8 +341,7 @@ def run(tier='quick'):
                         'library refuse when any file the load side probes or demands is already present (rule X5 of C12: '
                         'otherwise a second create leaves both layouts in the directory, load reports "not found" and '
                         'create-or-load creates over a library)', floor=2)
-    from . import c12 as _c12
-    _c12.creators_refuse_existing(prog, chk, N7)
+    c16.creators_refuse_existing(prog, cg, eff, chk, N7)
     return chk.finish('declarations of %d handle / table / context classes, all statement sites, symbolic paths of '
                       'the open / attach sites of the create and load sides, transaction path analysis, version '
                       'constants of the creators' % len(STATELESS + CONTEXT))
